@@ -127,6 +127,9 @@ func c12Resources(sc c12Scen) (entry string, res map[string][]byte, order []stri
 		cs.Tracks = "v+a"
 	case "ts-va":
 		cs.Container = "ts"
+	case "fmp4-va-sparse":
+		// (built like fmp4-va with three segments; below, the audio track of the middle one is given a track fragment without samples)
+		cs.NSeg = 3
 	case "fmp4-frags":
 		// several fragments per segment: the stream processor hands fragment n+1 to a track processor that is still
 		// pacing the samples of fragment n, one more hand-off where Close or a fault can find it
@@ -163,6 +166,28 @@ func c12Resources(sc c12Scen) (entry string, res map[string][]byte, order []stri
 		}
 		for j, s := range r.segs {
 			res[fmt.Sprintf("r%d_seg%d", ri, j)] = s.Body
+			if sc.Stream == "fmp4-va-sparse" && ri == 0 && j == 1 {
+				// a momentarily silent audio track: its track fragment is there, without samples
+				var frags [][]sUnit
+				for _, f := range s.Frags {
+					var nf []sUnit
+					marked := false
+					for _, u := range f {
+						if r.tracks[u.Track].Kind == "h264" {
+							nf = append(nf, u)
+						} else if !marked {
+							marked = true
+							nf = append(nf, sUnit{Track: u.Track, DTS: u.DTS, Empty: true})
+						}
+					}
+					frags = append(frags, nf)
+				}
+				b, err := buildFMP4(r.tracks, frags, uint32(j*len(s.Frags)))
+				if err != nil {
+					panic(err)
+				}
+				res["r0_seg1"] = b
+			}
 		}
 	}
 	return entry, res, nil
@@ -477,8 +502,8 @@ func c12Scens(tier string) []c12Scen {
 		bound = 2
 	}
 	for _, policy := range []int{0, 1, 2} {
-		for _, stream := range []string{"fmp4-va", "fmp4-v+a", "ts-va", "ll", "ts-big", "fmp4-frags", "fmp4-v+a-extra"} {
-			nreq := map[string]int{"fmp4-va": 4, "fmp4-v+a": 9, "ts-va": 3, "ll": 8, "ts-big": 2, "fmp4-frags": 4, "fmp4-v+a-extra": 6}[stream]
+		for _, stream := range []string{"fmp4-va", "fmp4-v+a", "ts-va", "ll", "ts-big", "fmp4-frags", "fmp4-v+a-extra", "fmp4-va-sparse"} {
+			nreq := map[string]int{"fmp4-va": 4, "fmp4-v+a": 9, "ts-va": 3, "ll": 8, "ts-big": 2, "fmp4-frags": 4, "fmp4-v+a-extra": 6, "fmp4-va-sparse": 5}[stream]
 			nseg := 2
 			for _, fault := range []string{"none", "404", "500", "neterr", "stall", "ontracks", "503stall", "timeout", "truncated"} {
 				if (fault == "503stall" || fault == "timeout" || fault == "truncated") && policy != 0 && tier != "thorough" {
